@@ -51,6 +51,13 @@ pub fn load_verif_type_map() -> TypeMap {
     load_type_map(&[include_str!("../metatypes/verif.json")])
 }
 
+/// Everything: Qt + verification classes + adversarially named classes (debug stream).
+pub fn load_full_type_map() -> TypeMap {
+    let mut extra = metatype::extract_classes_from_str(include_str!("../metatypes/verif.json")).unwrap();
+    extra.extend(adversarial_classes());
+    load_type_map_with(extra)
+}
+
 pub fn load_type_map_with(extra: Vec<metatype::Class>) -> TypeMap {
     let mut type_map = TypeMap::with_primitive_types();
     let mut classes = load_qt_classes();
